@@ -49,32 +49,10 @@ Definition diag_case (c : string * string) : string :=
 
 NUM_PREAMBLE = """From Coq Require Import ZArith.
 From Coq Require Import Floats.SpecFloat.
-From DL Require Import Lib.Bytes Lib.F64 Lua.Syntax Model.NumberLit.
+From DL Require Import Lib.Bytes Lib.F64 Lua.Syntax Model.NumberLit Model.NumberValue.
 Open Scope N_scope.
 Open Scope string_scope.
-Definition lit_value (n : number) : f64 :=
-  match n with
-  | NDec bits _ => of_bits bits
-  | NHex i _ None => of_N i
-  | NHex i _ (Some (e, _)) => of_N ((i * (if N.leb 64 e then 0 else 2 ^ e)) mod 18446744073709551616)
-  | NBin i _ => of_N i
-  end.
-(* value of a written number: the three parenthesised forms for nan / infinities, otherwise the
-   literal read back with correctly rounded decimal -> binary conversion *)
-(* a Lua numeral starts with a digit, or a dot followed by a digit (after an optional minus sign): words such as
-   inf / nan, which a float parser may accept, are names in Lua *)
-Definition numeral_shape (t : bytes) : bool :=
-  let u := match t with 45 :: r => r | _ => t end in
-  match u with
-  | c :: r => if is_digit c then true
-              else if N.eqb c 46 then match r with d :: _ => is_digit d | [] => false end else false
-  | [] => false
-  end.
-Definition text_value (t : bytes) : option f64 :=
-  if bytes_eqb t (of_string "(0/0)") then Some S754_nan
-  else if bytes_eqb t (of_string "(1/0)") then Some (S754_infinity false)
-  else if bytes_eqb t (of_string "(-1/0)") then Some (S754_infinity true)
-  else if numeral_shape t then option_map lit_value (from_str t) else None.
+(* lit_value / numeral_shape / text_value: Model/NumberValue.v (the definitions the value theorems are about) *)
 Definition check_case (c : number * string) : bool :=
   match text_value (unhex (snd c)) with
   | Some v => same_f64 v (lit_value (fst c))
@@ -330,7 +308,7 @@ def run_numbers(ctx):
 
 def run(ctx):
     C.build_harness("dl-c13")
-    proofs_ok = C.proof_gate(ctx, ["Model/NumberLit.vo", "Model/NumberWrite.vo"])
+    proofs_ok = C.proof_gate(ctx, ["Model/NumberLit.vo", "Model/NumberWrite.vo", "Model/NumberValue.vo"])
     run_numbers(ctx)
     run_strparse(ctx)
     run_gens(ctx)
